@@ -44,10 +44,14 @@ BaseFuncs(scn) == [i \in 0..Len(scn.convs) |-> IF i = 0 THEN scn.target ELSE scn
 \* exists once the supplied functions and inputs are in the graph (a snapshot: vertices added by generated
 \* converters are not shown); the harness's generators answer for vertices of type `from` with a converter
 \* from:<sub> -> to:<sub> that keeps the vertex's name and subtype (assembled with BuildFunc).
+\* the results a function offers (func.go:graph ranges over output.namedValues and output.typedValues; the latter is
+\* keyed by type alone, so of several type-only results of one type only the LAST declared one is offered)
+AdvOut(f) == {j \in DOMAIN f.out : f.out[j].name # "" \/ ~\E k \in DOMAIN f.out : k > j /\ f.out[k].name = "" /\ f.out[k].type = f.out[j].type}
+
 GenSnapshot(scn) ==
   LET F == BaseFuncs(scn) IN
   UNION { {ReqVertex0(F[i].in[j]) : j \in DOMAIN F[i].in}
-          \cup (IF i = 0 THEN {} ELSE {ProvVertex0(F[i].out[j]) : j \in DOMAIN F[i].out}) : i \in DOMAIN F }
+          \cup (IF i = 0 THEN {} ELSE {ProvVertex0(F[i].out[j]) : j \in AdvOut(F[i])}) : i \in DOMAIN F }
   \cup {ProvVertex0(scn.inputs[j]) : j \in FoldedIdx(scn.inputs)}
 GenFor(g, v) == [in |-> <<[name |-> v.name, type |-> g.from, sub |-> v.sub]>>, out |-> <<[name |-> v.name, type |-> g.to, sub |-> v.sub]>>,
                  form |-> "built", hasErr |-> TRUE, fails |-> FALSE, once |-> FALSE, nilOut |-> FALSE]
@@ -87,7 +91,7 @@ E1(scn) ==
   UNION { {<<FnV(scn, i), ReqVertex(F[i].in[j]), IF F[i].in[j].name = "" THEN WTyped ELSE WNormal>> : j \in DOMAIN F[i].in}
           \cup (IF Len(F[i].in) = 0 THEN {<<FnV(scn, i), Root, WNormal>>} ELSE {})
           \cup (IF i = 0 THEN {}
-                ELSE {<<ProvVertex(F[i].out[j]), FnV(scn, i), IF F[i].out[j].name = "" THEN WTyped ELSE WNormal>> : j \in DOMAIN F[i].out})
+                ELSE {<<ProvVertex(F[i].out[j]), FnV(scn, i), IF F[i].out[j].name = "" THEN WTyped ELSE WNormal>> : j \in AdvOut(F[i])})
         : i \in DOMAIN F }
   \cup {<<v, Root, WNormal>> : v \in InputVerts(scn)}
 
